@@ -673,6 +673,8 @@ Programs ==
     [] Univ = "measure" -> MeasureProgs
     [] Univ = "elem"    -> ElemProgs
     [] Univ = "seeds"   -> Rng(SeedSeq)
+    [] Univ = "all"     -> {One(g) : g \in AlgTerms \cup IndexTerms \cup CondTerms \cup DerivTerms \cup BfoTerms}
+                           \cup MdProgs \cup MeasureProgs \cup ElemProgs
 
 -----------------------------------------------------------------------------
 VARIABLES b,      \* number of the base program
